@@ -17,9 +17,12 @@ PYTHONPATH=$SV /venv/bin/python $OUT/demo.py > $OUT/demo_patched.txt 2>&1; D1=$?
 cd /verif; git -C /repo worktree remove --force $SV
 # run our check against the patched /repo
 if [ $AP = 0 ]; then
+  cp evidence/$ID.json /tmp/evidence_$ID.bak 2>/dev/null
   git -C /repo apply $OUT/patch.diff
   ./check $ID quick > $OUT/check_output.txt 2>&1; CK=$?
   git -C /repo checkout -- .
+  cp evidence/$ID.json $OUT/evidence_with_patch.json 2>/dev/null
+  mv /tmp/evidence_$ID.bak evidence/$ID.json 2>/dev/null   # the committed evidence must come from the unchanged tree
 else CK=-1; fi
 python3 - <<PY
 import json
